@@ -994,6 +994,17 @@ func (p *H265Payloader) Payload(mtu uint16, payload []byte) [][]byte { //nolint:
 			// then, fragment the nalu
 			maxFUPayloadSize := int(mtu) - fuPacketHeaderSize
 
+			if maxFUPayloadSize > 0 && len(nalu) > h265NaluHeaderSize && len(nalu)-h265NaluHeaderSize <= maxFUPayloadSize {
+				// A single FU would carry the whole unit, with the start bit set and the end
+				// bit never sent. RFC 7798 requires at least two FUs per fragmented unit;
+				// a unit this small still fits a single NAL unit packet.
+				flushBufferedNals()
+				bufferedNALUs = append(bufferedNALUs, nalu)
+				flushBufferedNals()
+
+				return
+			}
+
 			naluHeader := newH265NALUHeader(nalu[0], nalu[1])
 
 			// the nalu header is omitted from the fragmentation packet payload
